@@ -373,8 +373,32 @@ fn o_session(s: &crate::history::Session<CkCase>, st: &mut Stats) -> Result<(), 
     crate::history::judge_session(s, o_case, st)
 }
 
+fn lc_case(max: u32, i: u64) -> Option<CkCase> {
+    let a = crate::chars::length_changing_alphabet();
+    let n = crate::props::c10::names_total(a, max);
+    let alg = crate::props::c10::name_from_index(a, max, i % n);
+    if alg.contains(',') {
+        return None;
+    }
+    // the name alone, and next to a second algorithm that it may collide with once lower-cased
+    let ops = if i < n {
+        vec![COp::Insert(alg, vec![0x0f, 0xf0])]
+    } else {
+        vec![COp::InsertRawUpper("zz".into(), vec![1]), COp::Insert(alg, vec![0xab]), COp::Insert("a".into(), vec![2])]
+    };
+    Some(CkCase { ops, orders: vec![1, 0, 1, 1, 0, 2, 1, 0], spelling: vec![] })
+}
+
 pub fn sections() -> Vec<Box<dyn Section>> {
     vec![
+        Box::new(crate::engine::Enumerated {
+            name: "algorithm-names-over-length-changing-case-letters".into(),
+            total: Box::new(|t: Tier| 2 * crate::props::c10::names_total(crate::chars::length_changing_alphabet(), t.pick(3, 4))),
+            make: Box::new(|t: Tier, i| lc_case(t.pick(3, 4), i)),
+            oracle: o_case,
+            required: vec!["algorithm-non-ascii"],
+            complete: true,
+        }),
         Box::new(Random {
             name: "very-many-algorithms".into(),
             quick: 120,
